@@ -388,6 +388,99 @@ def shard(arg):
     return rec
 
 
+def shard_long(arg):
+    """Long histories over thousands of *distinct* arguments (bounded caches only misbehave when they are full): the same
+    multiset of calls is run in two different orders, each in its own fork of the pristine zygote; the outcome of a call may
+    not depend on the order. Repeated failing calls are sprinkled in. A sample of calls is anchored to fresh-process outcomes."""
+    i, seed, tier = arg
+    import random
+    from ..engines.zygote import Zygote
+    from .c12 import real
+    rng = random.Random(f"{seed}:C15:long:{i}")
+    rec = Rec()
+    g, o = gen(), oracle()
+    R = real()
+    keys = sorted(R["idx"])
+    n = 6000 if tier == "quick" else 40000
+    kind = i % 4
+    calls_ = []
+    if kind in (0, 1):       # lookups over distinct registry keys, with repeated failing lookups in between
+        for cc, code in rng.sample(keys, min(n, len(keys))):
+            calls_.append({"op": "from_bank_code", "cc": cc, "code": code} if kind == 0 or rng.random() < 0.5 else
+                          {"op": "candidates", "cc": cc, "code": code})
+        for _ in range(25):
+            cc, code = rng.choice(keys)
+            bad = {"op": "from_bank_code", "cc": cc, "code": code + "9"}
+            at = rng.randrange(len(calls_) // 3)
+            calls_[at:at] = [bad, bad]
+    elif kind == 2:          # distinct IBAN validations (valid and one edit away), a few repeated
+        ccs = o.countries()
+        for k in range(n):
+            t = g.iban(rng.choice(ccs), rng)
+            if k % 3 == 0:
+                j = rng.randrange(4, len(t))
+                t = t[:j] + rng.choice("0123456789") + t[j + 1:]
+            calls_.append({"op": "iban", "text": t, "validate_bban": k % 5 == 0})
+        calls_ += rng.sample(calls_, 200)
+    else:                    # distinct generations / random draws / BIC constructions
+        from .c08 import conforming, field_info
+        for k in range(n // 2):
+            cc = rng.choice(["DE", "GB", "FR", "ES", "IT", "NO", "PL", "BE", "NL", "AT"])
+            fi = field_info(cc)
+            calls_.append({"op": "generate", "cc": cc, "bank_code": conforming(rng, fi["bank_code"][2], len(fi["bank_code"][2])),
+                           "account_code": conforming(rng, fi["account_code"][2], rng.randrange(1, len(fi["account_code"][2]) + 1)),
+                           "branch_code": conforming(rng, fi["branch_code"][2], len(fi["branch_code"][2]))})
+            calls_.append({"op": "random", "cc": cc, "seed": k, "use_registry": k % 2 == 0})
+    order2 = list(calls_)
+    rng.shuffle(order2)
+    zyg = Zygote()
+    try:
+        r1 = zyg.history(calls_)
+        r2 = zyg.history(order2)
+        by1, by2 = {}, {}
+        for d, out in zip(calls_, r1["outcomes"]):
+            by1.setdefault(json.dumps(d, sort_keys=True), []).append(out)
+        for d, out in zip(order2, r2["outcomes"]):
+            by2.setdefault(json.dumps(d, sort_keys=True), []).append(out)
+        bad = None
+        for k_, outs in by1.items():
+            allouts = outs + by2[k_]
+            if any(x != allouts[0] for x in allouts):
+                bad = json.loads(k_)
+                break
+        rec.evals += len(calls_) * 2
+        rec.classes["long-history-calls"] += len(calls_) * 2
+        rec.classes[f"long-history-kind-{kind}"] += 1
+        rec.nt.add(hash(("long", i, seed)))
+        rec.sample("long-history", {"calls": len(calls_), "distinct": len(by1), "first": calls_[:2], "orders": 2})
+        if r1["registry"] or r2["registry"]:
+            rec.fail(f"registry_modified|{r1['registry'] or r2['registry']}", "registries_unmodified", {"history": calls_[:50], "long": True},
+                     "unchanged", r1["registry"] or r2["registry"])
+        if bad is not None:
+            # which order is wrong? anchor to the fresh-process outcome; then cut the history after the first deviating call
+            want = zyg.reference(bad)
+            hist = None
+            for seq, res in ((calls_, r1), (order2, r2)):
+                for n_, (d, out) in enumerate(zip(seq, res["outcomes"])):
+                    if d == bad and out != want:
+                        hist = seq[:n_ + 1]
+                        break
+                if hist:
+                    break
+            hist = hist or calls_
+            small, why = minimise(zyg, hist, 25 if tier == "quick" else 120)
+            rec.fail(f"history_dependent|{bad['op']}|long-history", "outcome_equals_fresh_process",
+                     {"history": small, "reproduces_from_pristine_process": why, "full_length": len(hist)}, want, "differs by order")
+        for d in rng.sample(calls_, 40):
+            if zyg.reference(d) != by1[json.dumps(d, sort_keys=True)][0]:
+                rec.fail(f"history_dependent|{d['op']}|long-history-anchor", "outcome_equals_fresh_process",
+                         {"history": calls_[:calls_.index(d) + 1]}, zyg.reference(d), by1[json.dumps(d, sort_keys=True)][0])
+                break
+    finally:
+        zyg.close()
+    return rec
+
+
 def replay(rec, case):
     from ..engines.zygote import Zygote
     zyg = Zygote()
@@ -415,4 +508,5 @@ def run(ctx):
     ctx.assumptions = ["fresh process = fork of an interpreter that has imported schwifty and made no call",
                        "call pool is finite per seed (memoised references); histories are unbounded combinations of it"]
     ctx.pmap(shard, [(i, ctx.seed, ctx.tier) for i in range(16)])
-    ctx.require_classes("sequence", "sequence-with-failing-call-followed-by-other-calls", "fresh-process-references", "burst")
+    ctx.pmap(shard_long, [(i, ctx.seed, ctx.tier) for i in range(8 if ctx.quick else 16)])
+    ctx.require_classes("sequence", "sequence-with-failing-call-followed-by-other-calls", "fresh-process-references", "burst", "long-history-calls", "long-history-kind-0", "long-history-kind-2")
